@@ -135,25 +135,65 @@ INFO = {
     },
 }
 
+ELF_COMMON = [
+    "elf::read_elf (file I/O) replaced by a stub returning the harness-built image; the image reaches `load` as a Vec<u8> built without memcpy so that CBMC's symbolic execution keeps "
+    "the header bytes as constants (CBMC option --max-field-sensitivity-array-size 1024)",
+    "string_table::parse_string_table_entry replaced by a contract stub (name = run of graphic ASCII bytes, accepted iff followed by NUL) that builds the String without memcpy; "
+    "the real parser's own harness (c11p::string_entry) exhausts memory on its symbolic-length to_vec() and is NOT part of the claim - this stub is therefore a trusted assumption",
+    "under Kani `bus.dram` is replaced by its first H'18000 bytes (everything the skeleton touches ends below H'418000; an access beyond would fail Kani's index check); natively the real 2 MiB array is used",
+    "anyhow / fmt::format models as everywhere",
+]
 INFO["C11"] = {
-    "not_applicable": True,
-    "na_reason": "elf::load (nom parser combinators + Vec/String + copies into the 2 MiB DRAM slice) is outside what CBMC can encode here: with read_elf stubbed and a "
-                 "fully CONCRETE 516-byte layout (only segment bytes, GOT values and the argument string symbolic) symbolic execution alone was still running after 50+ minutes "
-                 "and 10 GB (harness harness/c11.rs kept for the record); symbolic layouts additionally need symbolic-index DRAM writes, which exhaust memory (see C09). "
-                 "No other technique is substituted.",
+    "functions": ["elf::load (real)", "parse_elf_header32", "parse_program_header_table32", "parse_section_header_table32 (real nom parsers, inside load and on their own)"],
+    "bounds": "BOUNDED CLAIM on enumerated layouts - (a) the real elf::load on two concrete 516-byte ELF32-BE layout skeletons ([LOAD, NOTE, LOAD] and [LOAD, LOAD, NOTE] program headers, six "
+              "shuffled section headers, .got of two entries inside the first segment, .symtab, no .stack section) with ALL segment content bytes (24), both GOT entry values (all 2^64 "
+              "pairs, sums wrapping modulo 2^32 included) and the ___exit value symbolic: segment bytes at base + p_vaddr, bss / gap / neighbouring bytes zero (enumerated probes), GOT "
+              "entries relocated exactly once (big-endian, modulo 2^32), on-chip RAM / vector area / I/O registers untouched (enumerated probes); (b) the three record parsers on their own "
+              "over fully symbolic bytes: every field of the ELF header (52 bytes), of two program headers (64 bytes) and of two section headers (80 bytes) equals the big-endian value at "
+              "the ELF32 specification's offset, for all byte values",
+    "outside": "segment offsets / addresses / sizes, the number of segments and sections, the position and size of .got other than the two skeletons (a symbolic layout makes every DRAM "
+               "store a symbolic-index store: out of reach, see C09); .got with more than two entries; files with a .stack section together with .symtab (that combination produced "
+               "spurious pointer failures in CBMC; the .stack arm is decided in C12's harnesses on files without .symtab); zero-fill and outside-DRAM are probed at enumerated addresses only",
+    "assumptions": ELF_COMMON,
+    "level_text": "Bounded model checking (Kani/CBMC) of the real elf::load on two concrete layout skeletons with symbolic contents, plus the real nom record parsers on fully symbolic bytes. "
+                  "The layout dimension of the property (arbitrary offsets/sizes/section order) is NOT covered beyond the two skeletons; within a skeleton the SAT verdict covers every content byte and GOT value.",
+    "level_note": "BOUNDED to two layout skeletons. Trusted: Kani, CBMC, CaDiCaL, the read_elf stub, the string-table contract stub, the reduced DRAM array under Kani, the anyhow model.",
+    "technique": "Kani/CBMC bounded model checking of elf::load on concrete layout skeletons with symbolic contents + of the nom record parsers on symbolic bytes (SAT)",
 }
 INFO["C12"] = {
-    "not_applicable": True,
-    "na_reason": "same code as C11 (elf::load): not encodable within reach - >50 min symbolic execution for one concrete-layout skeleton; the environment layout arithmetic is not "
-                 "separable from the parser without rewriting the repository",
+    "functions": ["elf::load (real): entry, .got pointer, .stack arm (SP, TCB gap, argv table and strings), .symtab arm (___exit)", "parse_symbol_table32 (real, on its own)"],
+    "bounds": "BOUNDED CLAIM on enumerated layouts and argument strings - the real elf::load on the C11 skeletons: (a) file without .stack: ER2 = load base, ER5 = base + .got address, exit "
+              "address = ___exit value + base for every ___exit value that does not wrap; (b) files without .symtab, .stack size and image end as call-site constants covering the residues "
+              "(image end mod 4, stack size mod 4) = (1,3), (2,2) in quick and (3,1), (1,1), (0,0) in thorough, program headers [LOAD, NOTE, LOAD] and [LOAD, LOAD, NOTE] (a non-load "
+              "header last), argument strings \"\", \"a \\tb\", \" ab\" as call-site constants: ER7 = align4(image end + stack size) - 8 with image end = highest PT_LOAD extent, ER0 = argc, ER1 = argv "
+              "= align4(stack end + 88), argc pointers + null, \"prog.elf\" and the words NUL-terminated and byte-exact, regions ordered and inside DRAM; (c) parse_symbol_table32 on 32 "
+              "fully symbolic bytes (all six fields of two entries)",
+    "outside": "every layout / stack size / argument string other than the enumerated ones: the addresses of the argument block depend on them, and a symbolic address is a symbolic-index "
+               "store into DRAM (out of reach); the solver's universal quantification here covers only segment bytes, GOT values and the ___exit value - the layout arithmetic is decided at "
+               "the enumerated points only; symbol tables with more than 3 symbols; run() setting PC from ER2 is decided in C13's harness",
+    "assumptions": ELF_COMMON,
+    "level_text": "Bounded model checking (Kani/CBMC) of the real elf::load on concrete skeletons. The environment layout arithmetic is decided only at enumerated (image end, stack size, "
+                  "argument string) points chosen to cover the alignment residues and a non-load last program header; contents and the ___exit value are symbolic.",
+    "level_note": "BOUNDED to enumerated layouts and argument strings (stated in the evidence). Trusted: Kani, CBMC, CaDiCaL, the read_elf stub, the string-table contract stub, the reduced DRAM array under Kani.",
+    "technique": "Kani/CBMC bounded model checking of elf::load on concrete layout skeletons / argument strings with symbolic contents (SAT); symbol-table parser on symbolic bytes",
 }
 
 INFO["C18"] = {
-    "not_applicable": True,
-    "na_reason": "first sentence: the line handling is the body of Cpu::run's polling loop (Vec<String>, str::split, from_str_radix, string matches); with fetch/exec/clock scripted by "
-                 "stubs CBMC did not get through it - symbolic line texts: 35 min in symbolic execution, no result; concrete texts with a symbolic partition of 3 lines into 3 polls: out of "
-                 "memory at 20 GB; 2 lines / 2 polls: 30 min timeout (harness c13::socket_lines kept for the record). Second sentence (outgoing framing, receive-side splitting): code inside "
-                 "thread closures over a TcpStream, which Kani/CBMC cannot execute. No other technique is substituted.",
+    "functions": ["Cpu::parse_u8", "Cpu::parse_ioport", "u32::from_str_radix / u8::from_str_radix (std, compiled code)"],
+    "bounds": "PARTIAL CLAIM - decided: the effect of one `u8:<addr>:<value>` / `ioport:<port>:<value>` line after it has been split into fields: for every address text of 0..=9 "
+              "ASCII bytes and every value / port text of 0..=3 ASCII bytes (all byte values < 0x80, symbolic length), with 2, 3 or 4 fields: exactly one Bus::write(addr, value) / "
+              "Bus::write_port(port, value) with the hexadecimal values iff there are exactly three fields and both numbers are well-formed and in range; otherwise no effect at all "
+              "(malformed lines are ignored, Ok is returned)",
+    "outside": "NOT decided by any check (no solver encoding within reach, see DESIGN section 3 C18): exactly-once / in-order application of lines over arbitrary batching, the "
+               "cmd:pause/start/stop lines, the split(':') itself and the dispatch on the first field (all inside Cpu::run's polling loop: one line in one batch exhausted 11 GB "
+               "after 9 minutes of symbolic execution); the outgoing framing/escaping and the receive-side line splitting (thread closures over a TcpStream); non-ASCII field "
+               "texts; a leading '+' (accepted by from_str_radix; the property is silent)",
+    "assumptions": ["Bus::write and Bus::write_port replaced by recording stubs (their own semantics are C09 / C16)", "field texts are ASCII and do not start with '+' or '-'"],
+    "level_text": "Bounded model checking (Kani/CBMC) of the real field parsers parse_u8 / parse_ioport over symbolic field texts. Partial: only the per-line effect of u8:/ioport: lines "
+                  "is decided; ordering/batching, cmd: lines and the outgoing framing are outside what CBMC can encode here (stated in the evidence).",
+    "level_note": "PARTIAL. Trusted: Kani MIR->goto translation, CBMC, CaDiCaL, the opaque anyhow model, recording stubs for Bus::write / Bus::write_port. Not decided: batching/order, "
+                  "cmd: lines, split(':') and dispatch inside Cpu::run, outgoing escaping (socket threads). A change confined to those parts is NOT detected by this check.",
+    "technique": "Kani/CBMC bounded model checking of parse_u8 / parse_ioport on symbolic ASCII field texts (SAT); partial coverage of the property",
 }
 
 NOTES = (
